@@ -45,7 +45,14 @@ theorem dumpable_iff_dump_ok (v : Val) (hdom : InDomain v = true) :
 
 /-- **Decoder closed and total.** For *every* byte string, `load` (a total function) either raises
 or returns a value built only from the twelve immutable plain types; the result type of the model
-has no constructor for anything else except `other`, which is excluded here. -/
+has no constructor for anything else except `other`, which is excluded here.
+
+One of the model's errors is not an exception of the code: `Err.notModelled`, answered in exactly one place
+(`unpack3` of a frozenset: `TAG_SLICE` followed by an encoded frozenset, where `_load_slice` unpacks the set in
+CPython's iteration order and returns `slice(x, y, z)` over three already-decoded plain values, or raises ValueError
+when the set does not have three elements).  For those inputs the theorem's left disjunct stands for "a slice of three
+plain values, or ValueError"; the correspondence checks on the real code that the result there is plain
+(`decode:not-modelled(slice-of-frozenset)` in the evidence). -/
 theorem load_safe (bs : Bytes) : (∃ e, load bs = .error e) ∨ (∃ v, load bs = .ok v ∧ dumpable v = true) := by
   unfold load
   cases h : dec (2 * bs.length + 2) bs with
@@ -56,6 +63,11 @@ theorem load_safe (bs : Bytes) : (∃ e, load bs = .error e) ∨ (∃ v, load bs
 transcribed failures of `_load` (so `load_safe`'s "raises" is never an artefact of the model) -/
 theorem load_fuel_adequate (bs : Bytes) : load bs ≠ .error .recursionError :=
   load_never_out_of_fuel bs
+
+/-- the model builds `frozenset(items)` without a failure branch: every plain value must be hashable, which holds iff
+slices are (CPython ≥ 3.12).  Measured on the interpreter the checks run under; on an older interpreter this obligation
+fails instead of the model being silently wrong about `TAG_FSET` over slices. -/
+theorem interpreter_hashes_slices : Gen.sliceHashable = true := by decide
 
 /-- the loader's registry has exactly the tags the model decodes (generated; a new or re-keyed
 `_load_*` entry breaks this) -/
